@@ -515,7 +515,27 @@ def run_ctorlist(ctx, p):
     ctx.nontrivial('ctorlist', c, d if 'F' in pat else '-', pat)
 
 
-RUNNERS = {'history': run_history, 'slices': run_slices, 'ctor': run_ctor, 'ctorlist': run_ctorlist}
+def run_ctorempty(ctx, p):
+    c = p['cls']
+    C = getattr(S(), c)
+    sig = dict(api=c, op='construct_from_list', item='none')
+    arg = [] if p['form'] == 'list' else ()
+    try:
+        x = C(arg)
+        err = None
+    except Exception as e:
+        x, err = None, e
+    if err is None:
+        ok = type(x) is C and isinstance(x.data, list) and len(x.data) == 0 and len(x) == 0
+        ctx.judge('state', ok, dict(sig, kind='empty_list_not_empty'), lambda: '%s(%r) holds %s' % (c, arg, core.short(getattr(x, 'data', x), 200)))
+    else:
+        ctx.judge('errors', not isinstance(err, IndexError), dict(sig, kind='empty_list_raises_IndexError'),
+                  lambda: '%s(%r) raised %r' % (c, arg, err))
+    ctx.cell('ctorempty', c, p['form'])
+    ctx.nontrivial('ctorempty', c, p['form'])
+
+
+RUNNERS = {'ctorempty': run_ctorempty, 'history': run_history, 'slices': run_slices, 'ctor': run_ctor, 'ctorlist': run_ctorlist}
 
 
 def REACH():
@@ -551,6 +571,12 @@ def run(ctx):
                 i += 1
                 if ctx.mine(i):
                     drive(RUNNERS, ctx, 'ctorlist', dict(cls=c, other=d, pat=pat, pool=pools[c], opool=pools[d]))
+        # an empty list / tuple of objects: a list of nothing has length 0 (a refusal is tolerated, but IndexError is what an
+        # out-of-range index raises, not what a constructor argument raises)
+        for form in ('list', 'tuple'):
+            i += 1
+            if ctx.mine(i):
+                drive(RUNNERS, ctx, 'ctorempty', dict(cls=c, form=form))
         for pat in [''.join(t) for L in (1, 2, 3) for t in itertools.product('OME', repeat=L)]:
             i += 1
             if ctx.mine(i):
